@@ -178,6 +178,54 @@ PROPS = {
     },
 }
 
+# ---------------------------------------------------------------------------------------------------------------
+# Round-2 updates (theorems added since the entries above were written).  Applied on top of PROPS.
+
+def _upd(pid, **kw):
+    for k, v in kw.items():
+        if k == "claim_prefix":
+            PROPS[pid]["claim"] = v + " " + PROPS[pid]["claim"]
+        elif k == "trusted_add":
+            PROPS[pid]["trusted_base"] = PROPS[pid].get("trusted_base", []) + v
+        else:
+            PROPS[pid][k] = v
+
+_upd("C01",
+     claim_prefix="OVER THE REALS (hash_real_contains): for every depth <= 32, every latitude in [-pi/2, pi/2] and every |lon| < 64 pi, the model of hash_v2 at R returns parts (d0h < 12, i, j < 2^depth) whose closed diamond contains the point projected by the crate's own proj (x modulo 8): all seam inequalities (> vs >= in q01/q12, strict transition latitude, negative-longitude quarter 3-(q>>1), clamp at i = nside, depth 0); the same against an independent statement of the Calabretta-Roukema projection outside negative-longitude cap seams (seam_convention says what the code does there; lon_bound_is_sharp shows 64 pi cannot be enlarged).",
+     note="Proof over the reals of the containment statement for all inputs of the property's quantifier, plus range/guard/base-cell theorems for every f64 bit pattern. NOT carried by proof: rounding of libm and of the four products/sums of the front end at Float (the property grants a rounding tolerance; validated by the bit-exact correspondence on seam-heavy inputs and the point-in-diamond oracle).",
+     open_statements=["hash_real_contains_perturbed (transfer of the real-valued statement to doubles: rounding of sin/cos and of the front-end products)"])
+_upd("C07",
+     claim="Theorems for ALL pairs of well-formed in-range MOCs (every depth mix, depth_max <= 29): `and` = intersection (and_sem), `not` = complement (not_sem), `xor` = symmetric difference for the public operator including re-encoding and pack (xor_sem, xor_self_empty); results are MOCs (all flags full), well formed, in range. CANONICAL FORM: a well-formed in-range all-full list without four full siblings is determined by the set it denotes (moc_canonical, bmoc_canonical on raw entries: structural equality = set equality); pack outputs are canonical (pack_canonical), and so are the results of and / not, which do not call pack (and_canonical, not_canonical); hence not(not a) = a, commutativity/idempotence/associativity of and, a and not a = empty hold as structural equalities (not_not, and_laws), and two unions / symmetric differences denoting the same set have identical entries (pack_eq_of_same_set). `or`: loop-by-loop model tied bit-exactly to the code (exhaustive one-level universes, sampled two-level universe, random deep trees to depth 29, degenerate shapes, algebraic laws).",
+     note="Proof for not/and/xor and the canonical form; `or` semantics is the remaining open statement (validated by correspondence + pointwise interval oracle). Trusted: Lean kernel, hand-written model of bmoc.rs tied by the differential check.",
+     open_statements=["or_sem (union)"])
+_upd("C08",
+     claim="Theorems for ALL pairs of well-formed in-range BMOCs with arbitrary flags and depth mixes (depth_max <= 29): `and` is the pointwise minimum (and3_sem), `not` swaps absent/full and keeps partial (not3_sem), `xor` follows the documented table both on cell lists and for the public operator with re-encoding at the larger depth_max and pack (xor3_sem, xor_bmoc: never panics on valid operands, result valid, strictly increasing, well formed); results well formed and in range. `or`: loop-by-loop model tied bit-exactly to the code on the exhaustive one-level three-state universe (all ordered pairs), sampled two-level universe and random deep trees biased to partial-over-full; the defect F1 in `or` was found this way and repaired (fix: commit).",
+     note="Proof for and/not/xor; or3_sem is the remaining open statement (validated by correspondence + pointwise three-valued interval oracle).",
+     open_statements=["or3_sem", "or_wf"])
+_upd("C15",
+     claim="Theorems: pack preserves the three-valued state of every cell, well-formedness, leaves no four full siblings and ends on a fixed point (pack_sem, pack_wf, pack_no_four_full); TO_LOWER_DEPTH (to_lower_depth_sem): for every well-formed BMOC with valid entries and new_depth < depth_max <= 29 the result is well formed, a coarse cell is kept IFF it contained something, is full IFF it lies inside one full input cell of depth <= new_depth, hence only if every deepest cell under it was full; new_depth >= depth_max is rejected. BUILDER: sort+dedup gives a strictly increasing list with the same members; buff_to_bmoc on a strictly increasing in-range buffer emits a well-formed BMOC covering exactly the buffer with the builder's flag (both next_power_of_two arms); fixed_builder_sem_of_or_spec: for EVERY depth <= 29, flag, push sequence (any order, duplicates) and drain schedule (any Vec capacity behaviour) the builder does not panic, returns None iff nothing was pushed, else a well-formed BMOC in which exactly the pushed cells carry the flag - relative to the specification of BMOC::or on equal-depth operands. Model compared with the code for all push-sequence families x 9 capacities x 9 depths; pack/to_lower_depth on exhaustive universes and random trees.",
+     note="Proof of pack, to_lower_depth, buff_to_bmoc and of the builder state machine; the builder theorem is relative to or's specification (C08's open statement) because the builder merges intermediate BMOCs with `or`. Trusted: Lean kernel, hand-written model, Vec capacity behaviour abstracted to an arbitrary drain schedule.",
+     open_statements=["fixed_builder_sem unconditional (needs or3_sem, C08)"])
+_upd("C17",
+     claim_prefix="OVER THE REALS, the whole statement: proj IS the Calabretta-Roukema projection stated independently (proj_eq_spec, both longitude signs); |x| < 8, |y| <= 2 with the signs of lon/lat (proj_range); unproj(proj p) = p exactly for |lon| < 2 pi in all four sign quadrants up to the code's pole threshold, and at the pole the latitude is exact and the longitude is the facet centre (unproj_proj, unproj_proj_pole); proj(unproj(x,y)) = (x,y) on the projected domain, with the right triangle edges and x = +-8 characterised (proj_unproj, proj_unproj_right_edge, proj_unproj_at_eight); base_cell_from_proj_coo returns a base cell whose closed diamond contains the point, with the border convention explicit, and the base cell of a projected position contains it (base_cell_from_proj_coo_spec, base_cell_ne_edge, base_cell_of_projected).",
+     note="Proof over the reals of every clause of the property; guards and ranges for every f64 bit pattern. NOT carried by proof: the 1e-14 rad accuracy of the round trip with doubles (validated by the bit-exact correspondence and the oracle; finding F22 lives there).",
+     open_statements=["transfer to doubles: 1e-14 rad round-trip accuracy (rounding; oracle)"])
+_upd("C18",
+     claim_prefix="BMI2 builds: pdep/pext (Intel SDM pseudo-code) with the regenerated even/odd masks are bit spreading/squeezing for every operand; Bmi.ij2h = interleave, h2ij inverts it, i02h/oj2h are its restrictions, and the BMI2 and LUT implementations are the same functions on every argument; the class selected by get_zoc on a BMI2 build is the same as on a LUT build (zoc_bmi_correct, bmi_eq_lut).",
+     note="Full proof for every implementation get_zoc can select (LUT and BMI2) and for the uniq encodings. Trusted: Lean kernel (axioms propext/Classical.choice/Quot.sound only), translator for tables/masks/ranges, the model of the byte-composition code (validated by differential testing in dev/release/+bmi2 builds), pdep/pext as the Intel SDM pseudo-code. The xor-network variants (never selected by get_zoc) are not modelled.")
+_upd("C09",
+     trusted_add=[])
+_upd("C20",
+     claim_prefix="TIE BY TRANSLATION: the bodies of nested::get_or_create and lib::get_or_create are parsed from the source on every run into instruction lists (call_once / write / read), and factories_from_source proves both are the program goodProg with `static` Once arrays. PROGRAM-LEVEL SAFETY with a two-step (torn) slot write, any number of threads, any interleaving: no read ever observes a store in progress (data-race freedom of the slot), at most one construction, every returning thread got the initialised object, no deadlock (safe_with_torn_writes, no_deadlock_prog); the program-level machine refines the four-step machine whose histories are replayed on the real code (prog_refines_once); the pre-F5 fast path and a const Once array are unsafe in the same model (unsafe_shapes). When the shape theorem breaks, the model is searched for a failing history (2 threads x 10 steps, 3 threads x 9 steps) and the history is put in the replay.",
+     trusted_add=["translator/rs2lean.py gen_once_prog: grammar of the factory body (call_once closure containing the slot write; early `if let`/`match` read; final read); anything else is rejected as outside the grammar (broken obligation)",
+                  "Model/OnceProg.lean: interpreter of the instruction lists; std::sync::Once as documented"])
+_upd("C04",
+     claim_prefix="TABLES FROM THE SOURCE: the seam rules (ncp_/eqr_/spc_neighbour through neighbour_from_shifted_coos), lib::neighbour, MainWind index/opposite/offsets/from_offsets/is_cardinal/is_ordinal are TABULATED from the source text on every run by a small interpreter of the match-arm subset (translator/rsmini.py) and the model's tables are proved equal to them entry by entry (seam_rules_from_source, seam_rules_agree_with_base_table, compass_from_source).",
+     trusted_add=["translator/rsmini.py: parser + evaluator for the crate's finite match tables (enum/integer patterns, `|`, `_`, nested match, blocks with assert!/println!/let, integer casts, calls between such functions)"])
+_upd("C14",
+     claim_prefix="TABLES FROM THE SOURCE: lib::direction_from_neighbour, lib::edge_cell_direction_from_neighbour (12 x 9 x 9, panicking entries included) and the seam rules are tabulated from the source on every run and the model's tables proved equal to them (direction_tables_from_source, seam_rules_from_source).",
+     trusted_add=["translator/rsmini.py (see C04)"])
+
 HOOK_COMMITS = ["92c95dc", "f4641a8", "44f00b6"]
 
 NOT_CLAIMED = {("C%02d" % i): "check not built yet in this round (the technique applies; see DESIGN.md section 5)" for i in range(1, 21)}
